@@ -31,7 +31,7 @@ reader groups."
     let kinds: std::cell::RefCell<std::collections::BTreeMap<u64, String>> = Default::default();
     drive(
         ctx,
-        Drive { sub: SUB, batch: format!("C25-{}", tier.name()), n_prog: tier.pick(48, 1000), chunk: tier.pick(48, 250), floor: tier.pick(30, 600) },
+        Drive { extra_prefix: "", sub: SUB, batch: format!("C25-{}", tier.name()), n_prog: tier.pick(48, 1000), chunk: tier.pick(48, 250), floor: tier.pick(30, 600) },
         |rng, _cov| {
             counter += 1;
             let (case, kind) = gen_c25(rng, counter);
